@@ -5,7 +5,7 @@ CONSTANTS NV = 5
           AltSp = TRUE
           MaxView = 2
           MaxHeight = 2
-          MaxId = 1
+          MaxId = 2
           MaxSigns = 4
           NWho = 1
           Rich = TRUE
